@@ -221,7 +221,7 @@ func TestC11(t *testing.T) {
 		}
 	}
 	r.exhaustive(fmt.Sprintf("cancellation before the run and from inside the exec of every (item, attempt) for n<=%d, c in 0..4, both modes, budgets 1..%d, wait in {0, 1h}", maxN, r.pick(2, 3)))
-	rapidPart(r, "rand", r.pick(3000, 50000), genC11, checkC11)
+	rapidPart(r, "rand", r.pick(3000, 150000), genC11, checkC11)
 }
 
 func init() { registerReplay("C11", checkC11) }
